@@ -143,18 +143,18 @@ func (s *Service) CopyWithOptions(options ServiceOptions, targetOptions TargetOp
 		return nil, err
 	}
 
-	service.active = s.active
-	service.rollout = s.rollout
+	service.active, service.rollout, service.rolloutController = s.loadBalancers()
 	service.pauseController = s.pauseController
-	service.rolloutController = s.rolloutController
 
 	return service, service.initialize()
 }
 
 func (s *Service) Dispose() {
-	s.active.Dispose()
-	if s.rollout != nil {
-		s.rollout.Dispose()
+	active, rollout, _ := s.loadBalancers()
+
+	active.Dispose()
+	if rollout != nil {
+		rollout.Dispose()
 	}
 }
 
@@ -221,10 +221,12 @@ type marshalledService struct {
 }
 
 func (s *Service) MarshalJSON() ([]byte, error) {
+	active, rollout, rolloutController := s.loadBalancers()
+
 	var rolloutTargets []string
 	var rolloutTargetOptions *TargetOptions
-	if s.rollout != nil {
-		targets := s.rollout.Targets()
+	if rollout != nil {
+		targets := rollout.Targets()
 		rolloutTargets = targets.Names()
 		if len(targets) > 0 {
 			rolloutTargetOptions = &targets[0].options
@@ -233,12 +235,12 @@ func (s *Service) MarshalJSON() ([]byte, error) {
 
 	return json.Marshal(marshalledService{
 		Name:                 s.name,
-		ActiveTargets:        s.active.Targets().Names(),
+		ActiveTargets:        active.Targets().Names(),
 		RolloutTargets:       rolloutTargets,
-		Options:              s.options,
+		Options:              s.currentOptions(),
 		TargetOptions:        s.targetOptions,
 		PauseController:      s.pauseController,
-		RolloutController:    s.rolloutController,
+		RolloutController:    rolloutController,
 		RolloutTargetOptions: rolloutTargetOptions,
 	})
 }
@@ -354,23 +356,53 @@ func (s *Service) initialize() error {
 }
 
 func (s *Service) Drain(timeout time.Duration) {
+	active, rollout, _ := s.loadBalancers()
+
 	PerformConcurrently(
 		func() {
-			s.active.DrainAll(timeout)
+			active.DrainAll(timeout)
 		},
 		func() {
-			if s.rollout != nil {
-				s.rollout.DrainAll(timeout)
+			if rollout != nil {
+				rollout.DrainAll(timeout)
 			}
 		},
 	)
 }
 
+// loadBalancers returns the load balancers and the rollout split currently in
+// force. They are replaced under serviceLock while requests and the state
+// snapshot read them.
+func (s *Service) loadBalancers() (*LoadBalancer, *LoadBalancer, *RolloutController) {
+	s.serviceLock.Lock()
+	defer s.serviceLock.Unlock()
+
+	return s.active, s.rollout, s.rolloutController
+}
+
+// currentOptions returns the service options as they are now: the TLS settings
+// of a service that does not serve the root path are rewritten whenever the
+// root path service of its host changes.
+func (s *Service) currentOptions() ServiceOptions {
+	s.serviceLock.Lock()
+	defer s.serviceLock.Unlock()
+
+	return s.options
+}
+
+func (s *Service) setTLSOptions(enabled, redirect bool) {
+	s.serviceLock.Lock()
+	defer s.serviceLock.Unlock()
+
+	s.options.TLSEnabled = enabled
+	s.options.TLSRedirect = redirect
+}
+
 func (s *Service) loadBalancerForRequest(req *http.Request) *LoadBalancer {
-	lb := s.active
-	if s.rollout != nil && s.rolloutController != nil && s.rolloutController.RequestUsesRolloutGroup(req) {
+	lb, rollout, rolloutController := s.loadBalancers()
+	if rollout != nil && rolloutController != nil && rolloutController.RequestUsesRolloutGroup(req) {
 		slog.Debug("Using rollout for request", "service", s.name, "path", req.URL.Path)
-		lb = s.rollout
+		lb = rollout
 	}
 
 	return lb
@@ -443,7 +475,7 @@ func (s *Service) serviceRequestWithTarget(w http.ResponseWriter, r *http.Reques
 		return
 	}
 
-	if !s.options.TLSEnabled && r.TLS != nil {
+	if !s.currentOptions().TLSEnabled && r.TLS != nil {
 		SetErrorResponse(w, r, http.StatusServiceUnavailable, nil)
 		return
 	}
@@ -470,7 +502,8 @@ func (s *Service) isRunning() bool {
 }
 
 func (s *Service) shouldRedirectToHTTPS(r *http.Request) bool {
-	return s.options.TLSEnabled && s.options.TLSRedirect && r.TLS == nil
+	options := s.currentOptions()
+	return options.TLSEnabled && options.TLSRedirect && r.TLS == nil
 }
 
 func (s *Service) handlePausedAndStoppedRequests(w http.ResponseWriter, r *http.Request) bool {
